@@ -64,6 +64,10 @@ int main(int argc, char** argv) {
       }
       maxstat("spacing_err/tol:" + cls, worst);
       if (!(worst <= 1)) violation("Set_xrange:spacing:" + cls, "{\"grid\":" + ctx + ",\"nodes\":" + jarr(x) + "}");
+      // the ends the caller asked for are inside the grid: Get_i answers for both (first and last interval)
+      { count("evaluations"); unsigned ia = 99999, ib = 99999; bool thr = false; try { ia = s.Get_i(a); ib = s.Get_i(b); } catch (const std::exception&) { thr = true; }
+        bool ok = !thr && ia <= nx - 2 && ib <= nx - 2 && x[ia] <= a && a <= x[ia + 1] && x[ib] <= b && b <= x[ib + 1];
+        if (!ok) violation("Get_i:requested-end-not-answered:" + cls, "{\"grid\":" + ctx + ",\"first\":" + jnum(x[0]) + ",\"last\":" + jnum(x[nx - 1]) + ",\"threw\":" + (thr ? "true" : "false") + "}"); }
       if (mono) lookups(s, x, cls + (pow2(nx - 1) ? ":nx-1-pow2" : ":nx-1-not-pow2"), ctx);
     }
     // user-supplied grids
